@@ -133,11 +133,44 @@ func (c *Ctx) errorsIs(err, target Value, depth int) bool {
 		}
 		return false
 	}
-	if fn := c.Prog.LookupMethod(ev.T, nil, "Unwrap"); fn != nil && fn.Signature.Results().Len() == 1 {
-		r := c.call(fn, []Value{ev.V}, nil)
-		return c.errorsIs(r, target, depth+1)
+	if sel := types.NewMethodSet(ev.T).Lookup(nil, "Unwrap"); sel != nil {
+		if fn := c.Prog.MethodValue(sel); fn != nil && fn.Signature.Results().Len() == 1 {
+			r := c.call(fn, []Value{ev.V}, nil)
+			return c.errorsIs(r, target, depth+1)
+		}
 	}
 	return false
+}
+
+// errorsAs: the first error in err's chain whose dynamic type is assignable to targetT (nil when none).
+func (c *Ctx) errorsAs(err Value, targetT types.Type, depth int) (IfaceV, bool) {
+	ev, ok := err.(IfaceV)
+	if !ok || ev.T == nil || depth > 20 {
+		return IfaceV{}, false
+	}
+	if _, isErrV := ev.V.(*ErrV); !isErrV {
+		if it, isIface := targetT.Underlying().(*types.Interface); isIface {
+			if types.Implements(ev.T, it) {
+				return ev, true
+			}
+		} else if types.Identical(ev.T, targetT) {
+			return ev, true
+		}
+	}
+	if e, ok := ev.V.(*ErrV); ok {
+		for _, w := range e.Wraps {
+			if r, ok := c.errorsAs(w, targetT, depth+1); ok {
+				return r, true
+			}
+		}
+		return IfaceV{}, false
+	}
+	if sel := types.NewMethodSet(ev.T).Lookup(nil, "Unwrap"); sel != nil {
+		if fn := c.Prog.MethodValue(sel); fn != nil && fn.Signature.Results().Len() == 1 {
+			return c.errorsAs(c.call(fn, []Value{ev.V}, nil), targetT, depth+1)
+		}
+	}
+	return IfaceV{}, false
 }
 
 func isErrorValue(v Value) bool {
@@ -165,6 +198,28 @@ func (c *Ctx) registerStd(tab map[string]intrinsicFn) {
 	tab["errors.Is"] = func(c *Ctx, fn *ssa.Function, a []Value) Value {
 		return c.St.BoolC(c.errorsIs(a[0], a[1], 0))
 	}
+	tab["errors.As"] = func(c *Ctx, fn *ssa.Function, a []Value) Value {
+		// target: a non-nil pointer to a variable of an error type (interface or concrete)
+		tv, ok := a[1].(IfaceV)
+		if !ok || tv.T == nil {
+			panic(c.goPanic("errors: target cannot be nil"))
+		}
+		pt, ok := tv.T.Underlying().(*types.Pointer)
+		slot, ok2 := tv.V.(*Value)
+		if !ok || !ok2 || slot == nil {
+			panic(c.abort("errors.As with a target of type %s", typeString(tv.T)))
+		}
+		found, ok := c.errorsAs(a[0], pt.Elem(), 0)
+		if !ok {
+			return c.St.False()
+		}
+		if _, isIface := pt.Elem().Underlying().(*types.Interface); isIface {
+			storeInto(slot, found)
+		} else {
+			storeInto(slot, found.V)
+		}
+		return c.St.True()
+	}
 	tab["errors.Unwrap"] = func(c *Ctx, fn *ssa.Function, a []Value) Value {
 		if iv, ok := a[0].(IfaceV); ok {
 			if e, ok := iv.V.(*ErrV); ok && len(e.Wraps) > 0 {
@@ -176,13 +231,35 @@ func (c *Ctx) registerStd(tab map[string]intrinsicFn) {
 	tab["fmt.Errorf"] = func(c *Ctx, fn *ssa.Function, a []Value) Value {
 		c.E.Stubs["fmt.Errorf"]++
 		f, _ := a[0].(string)
+		// an operand is wrapped when ITS verb is %w: the verbs are matched with the operands one by one
+		// ("%%" is a literal, flags/width/precision are skipped, '*' takes an operand)
 		var wraps []Value
-		if strings.Contains(f, "%w") {
-			for _, x := range c.valuesOf(a[1]) {
-				if isErrorValue(x) {
-					wraps = append(wraps, x)
+		args := c.valuesOf(a[1])
+		k := 0
+		for i := 0; i < len(f); i++ {
+			if f[i] != '%' {
+				continue
+			}
+			i++
+			for i < len(f) && strings.IndexByte("+-# 0123456789.[]", f[i]) >= 0 {
+				i++
+			}
+			if i >= len(f) {
+				break
+			}
+			switch f[i] {
+			case '%':
+				continue
+			case '*':
+				k++
+				i--
+				continue
+			case 'w':
+				if k < len(args) && isErrorValue(args[k]) {
+					wraps = append(wraps, args[k])
 				}
 			}
+			k++
 		}
 		return c.errVal("<fmt.Errorf "+strconv.Quote(f)+">", wraps...)
 	}
@@ -325,6 +402,72 @@ func (c *Ctx) registerStd(tab map[string]intrinsicFn) {
 		tab[n] = func(c *Ctx, fn *ssa.Function, a []Value) Value { c.E.Stubs[n]++; return nil }
 	}
 	tab["(*sync.Mutex).TryLock"] = func(c *Ctx, fn *ssa.Function, a []Value) Value { return c.St.True() }
+	// sync/atomic cells: one goroutine, so every operation is an ordinary load/store on a side table keyed by
+	// the cell's address; stores are reported to the frame monitor like any other store
+	cell := func(c *Ctx, p Value) *Value {
+		sp, ok := p.(*Value)
+		if !ok || sp == nil {
+			panic(c.goPanic("nil atomic cell"))
+		}
+		return sp
+	}
+	aload := func(zero func(c *Ctx, fn *ssa.Function) Value) intrinsicFn {
+		return func(c *Ctx, fn *ssa.Function, a []Value) Value {
+			sp := cell(c, a[0])
+			if v, ok := c.atomics[sp]; ok {
+				return v
+			}
+			return zero(c, fn)
+		}
+	}
+	astore := func(c *Ctx, fn *ssa.Function, a []Value) Value {
+		sp := cell(c, a[0])
+		if c.atomics == nil {
+			c.atomics = map[*Value]Value{}
+		}
+		c.noteSlotWrite(sp)
+		c.atomics[sp] = a[1]
+		return nil
+	}
+	resultZero := func(c *Ctx, fn *ssa.Function) Value { return c.zero(fn.Signature.Results().At(0).Type()) }
+	for _, T := range []string{"Bool", "Int32", "Int64", "Uint32", "Uint64", "Uintptr", "Pointer[T]", "Value"} {
+		T := T
+		R := "(*sync/atomic." + T + ")."
+		tab[R+"Load"] = aload(resultZero)
+		tab[R+"Store"] = astore
+		tab[R+"Swap"] = func(c *Ctx, fn *ssa.Function, a []Value) Value {
+			old := tab[R+"Load"](c, fn, a[:1])
+			astore(c, fn, a)
+			return old
+		}
+		tab[R+"CompareAndSwap"] = func(c *Ctx, fn *ssa.Function, a []Value) Value {
+			sp := cell(c, a[0])
+			cur, ok := c.atomics[sp]
+			if !ok {
+				cur = c.zero(fn.Signature.Params().At(0).Type())
+			}
+			eq := c.equal(cur, a[1])
+			if !eq.IsConst() {
+				eqb := c.branchOn(eq, "atomic compare-and-swap")
+				if eqb {
+					astore(c, fn, []Value{a[0], a[2]})
+				}
+				return c.St.BoolC(eqb)
+			}
+			if eq.BoolVal() {
+				astore(c, fn, []Value{a[0], a[2]})
+			}
+			return eq
+		}
+		if T != "Bool" && T != "Value" && T != "Pointer[T]" {
+			tab[R+"Add"] = func(c *Ctx, fn *ssa.Function, a []Value) Value {
+				old := tab[R+"Load"](c, fn, a[:1]).(*smt.Term)
+				n := c.St.BVAdd(old, a[1].(*smt.Term))
+				astore(c, fn, []Value{a[0], n})
+				return n
+			}
+		}
+	}
 	// reflect.Value of an interpreter value: only what length queries need
 	tab["reflect.ValueOf"] = func(c *Ctx, fn *ssa.Function, a []Value) Value {
 		iv, _ := a[0].(IfaceV)
